@@ -88,7 +88,7 @@ func init() {
 		Level:           "exploration",
 		RaceIsViolation: true,
 		Cases: func(tier string) int {
-			return c03SeqCases() + vlib.TierN(tier, 160, 3200)
+			return c03SeqCases() + vlib.TierN(tier, 160, 48000)
 		},
 		Rule: "sequential part: every op sequence over {Ack,Nack,Acked?,Nacked?} of length 0..8 (87381 sequences) on 5 message kinds " +
 			"(NewMessage, Copy of unsettled/acked/nacked, zero value), checked step by step against the 3-state model (exhaustive, counter seq_sequences); " +
